@@ -314,7 +314,9 @@ def svc_oracle(module, data, ans, hist=None, exact=None):
             for mod, sp, inside, cov in locs:
                 if not ((sp[0], sp[1]) <= (l, c) <= (sp[2], sp[3])):
                     bad.append(f"hover at {at} reports the range {sp} that does not contain the position")
-                elif sp != want and ctx not in HOVER_NOT_A_NAME:
+                elif sp != want and ctx not in HOVER_NOT_A_NAME and syn == 0:
+                    # (exactness of name spans is claimed for syntactically valid modules — the property's quantifier;
+                    # error-recovered trees contain invented nodes whose spans border the recovery point)
                     # the position is inside an identifier token: the range reported back to the editor must be exactly
                     # that token's span (expected span = the real lexer's token, tied to Model/Lexer.lean)
                     bad.append(f"hover at {at} on the {ctx} name `{name.decode()}` reports the range {sp} instead of the "
@@ -583,10 +585,13 @@ def check_svc_batch(ctx, cases, label, stats, max_pos):
         stats["reported"] += 1
 
         category = " ".join(orc[0].split(" ")[:2])     # keep the class of failure while shrinking
+        was_valid = bool(m) and m.group(2) == "0"
 
         def fails(c):
             r = run_svc([(name, c)], max_pos, workers=1)[0]
             msgs = [r] if r.startswith("<") else svc_oracle(name, c.encode(), r)
+            if was_valid and not re.match(r"errs=\d+ syn=0 ", r):
+                return False       # do not shrink a failure on a valid module into an invalid one
             return any(m.startswith(category) for m in msgs)
         small = c05.shrink_text(t, fails, budget=120)
         r = run_svc([(name, small)], max_pos, workers=1)[0]
